@@ -38,6 +38,7 @@ CONSTANTS W,            \* workers
           Statuses,     \* statuses the environment may report
           MaxTries, MaxConc, RerunSet, StopSet,
           MaxBounce,    \* exploration bound: back-offs per worker
+          DryRun,       \* dry run: nothing is executed or cleaned
           Lazy          \* TRUE: start from flat tests and expand on demand; FALSE: everything parsed up front
 
 TraceLog == IF "TRACE_FILE" \in DOMAIN IOEnv THEN ndJsonDeserialize(IOEnv.TRACE_FILE) ELSE <<>>
@@ -104,7 +105,7 @@ ShouldRerun(res, t) == /\ AllStat(res, t) \subseteq RerunSet
 Present(pl, t, w) == Sets[t] \subseteq (pl[w] \cup pl["shared"])
 \* <<run, new value of rerunOff>>
 Decide(res, fin, pl, off, t, w) ==
-    IF t \in Flat THEN <<FALSE, off>>
+    IF t \in Flat \/ DryRun THEN <<FALSE, off>>
     ELSE IF t \notin Stateful
          THEN <<NumRes(res, t) = 0 \/ (~off /\ ShouldRerun(res, t)), off>>
          ELSE LET scan == fin[t] = {}
@@ -114,7 +115,7 @@ Decide(res, fin, pl, off, t, w) ==
 MustRun(t, w) == Decide(results, finished, pool, rerunOff[t][w], t, w)[1]
 OffAfter(t, w) == Decide(results, finished, pool, rerunOff[t][w], t, w)[2]
 \* ---- clean decision (default_clean_decision) of a reversal by w: TRUE iff the states are removed
-WillUnset(t, w) == /\ t \notin Flat /\ t \in Removable /\ t \in Stateful
+WillUnset(t, w) == /\ ~DryRun /\ t \notin Flat /\ t \in Removable /\ t \in Stateful
                    /\ \A pv \in Involved(t) : CleanupReady(t, pv) /\ "UNKNOWN" \notin SeqSet(results[t][pv])
                    /\ finished[t] = Involved(t)
 
@@ -243,7 +244,7 @@ RunStart(w) == /\ InLoop(w)
                /\ UNCHANGED <<path, pbs, pbc, ds, dc, finished, pool, exists, unrolled, asleep, nb, preFailed>>
 
 \* the creation pre-step ends: a failure ends the traversal of the node, otherwise the main step starts at once
-PreEnd(w, st) == /\ pc[w] = "prerunning" /\ turn = None /\ st \in Statuses
+PreEnd(w, st) == /\ pc[w] = "prerunning" /\ turn = None /\ st \in Statuses /\ st # "LOST"
                  /\ LET nx == Last(path[w]) IN
                       /\ On(w, "preend") /\ Arg("t", nx) /\ Arg("s", st) /\ Adv
                       /\ IF st \in {"FAIL", "ERROR"}
@@ -266,7 +267,7 @@ MainStart(w) == /\ pc[w] = "preended" /\ Free(w)
                 /\ pc' = [pc EXCEPT ![w] = "running"] /\ turn' = None
                 /\ UNCHANGED <<path, dir, snap, pbs, pbc, ds, dc, started, finished, pool, exists, unrolled, rerunOff, asleep, nb, preFailed>>
 
-RunEnd(w, st) == /\ pc[w] = "running" /\ turn = None /\ st \in Statuses
+RunEnd(w, st) == /\ pc[w] = "running" /\ turn = None /\ st \in Statuses /\ st # "LOST"
                  /\ LET nx == Last(path[w]) IN
                       /\ On(w, "endrun") /\ Arg("t", nx) /\ Arg("s", st) /\ Adv
                       /\ results' = [results EXCEPT ![nx][w] = [i \in 1..Len(@) |-> IF i = Len(@) THEN st ELSE @[i]]]
@@ -276,6 +277,28 @@ RunEnd(w, st) == /\ pc[w] = "running" /\ turn = None /\ st \in Statuses
                       /\ After(w, nx, results', finished', pool', rerunOff[nx][w])
                  /\ turn' = w
                  /\ UNCHANGED <<dir, snap, pbs, pbc, ds, dc, exists, unrolled, asleep, nb, bad, preFailed>>
+
+\* the result of the execution is never reported: the runner waits (10 x 30 s, other workers run meanwhile) and then
+\* treats it as ERROR
+EndLost(w) == /\ pc[w] \in {"running", "prerunning"} /\ turn = None /\ "LOST" \in Statuses
+              /\ On(w, IF pc[w] = "running" THEN "endrun" ELSE "preend") /\ Arg("t", Last(path[w])) /\ Arg("s", "LOST") /\ Adv
+              /\ pc' = [pc EXCEPT ![w] = IF pc[w] = "running" THEN "lostwait" ELSE "prelostwait"]
+              /\ UNCHANGED <<path, dir, snap, pbs, pbc, ds, dc, started, finished, results, pool, exists, unrolled, rerunOff, preFailed, turn, asleep, nb, bad>>
+LostResume(w) == /\ pc[w] \in {"lostwait", "prelostwait"} /\ turn = None
+                 /\ LET nx == Last(path[w]) IN
+                      IF pc[w] = "lostwait"
+                      THEN /\ results' = [results EXCEPT ![nx][w] = [i \in 1..Len(@) |-> IF i = Len(@) THEN "ERROR" ELSE @[i]]]
+                           /\ started' = [started EXCEPT ![nx][w] = FALSE]
+                           /\ finished' = [finished EXCEPT ![nx] = @ \cup {w}]
+                           /\ After(w, nx, results', finished', pool, rerunOff[nx][w])
+                           /\ UNCHANGED preFailed
+                      ELSE /\ started' = [started EXCEPT ![nx][w] = FALSE]
+                           /\ finished' = [finished EXCEPT ![nx] = @ \cup {w}]
+                           /\ After(w, nx, results, finished', pool, rerunOff[nx][w])
+                           /\ preFailed' = preFailed \cup {nx}
+                           /\ UNCHANGED results
+                 /\ turn' = w
+                 /\ UNCHANGED <<dir, snap, pbs, pbc, ds, dc, pool, exists, unrolled, asleep, nb, bad, l>>
 
 PostUp(w) == /\ pc[w] = "post" /\ Free(w) /\ dir[w] = "up"
              /\ LET nx == Last(path[w])
@@ -314,15 +337,15 @@ Reverse(w) == /\ pc[w] = "post" /\ Free(w) /\ dir[w] = "down" /\ CleanupReady(La
               /\ pc' = [pc EXCEPT ![w] = "loop"] /\ turn' = w
               /\ UNCHANGED <<dir, snap, pbs, pbc, ds, started, finished, results, exists, unrolled, rerunOff, asleep, nb, preFailed>>
 
-Step(w) == \/ Begin(w) \/ End(w) \/ Expand(w) \/ Bounce(w) \/ Skip(w) \/ RunStart(w) \/ MainStart(w)
+Step(w) == \/ Begin(w) \/ End(w) \/ Expand(w) \/ Bounce(w) \/ Skip(w) \/ RunStart(w) \/ MainStart(w) \/ EndLost(w)
            \/ PostUp(w) \/ Postpone(w) \/ Reverse(w)
            \/ \E c \in Tests : PickFromRoot(w, c) \/ PickParent(w, c) \/ PostDownPick(w, c)
            \/ \E st \in Statuses : PreEnd(w, st) \/ RunEnd(w, st)
-Next == \E w \in W : Step(w) \/ Wake(w)
+Next == \E w \in W : Step(w) \/ Wake(w) \/ LostResume(w)
 Spec == Init /\ l = 0 /\ [][Next]_vars
 
 \* ---- trace validation: the same actions, the recorded arguments; a wake-up is silent and implied
-TraceNext == \E w \in W : Step(w) \/ (Wake(w) /\ l <= Len(TraceLog) /\ TraceLog[l].w = w)
+TraceNext == \E w \in W : Step(w) \/ ((Wake(w) \/ LostResume(w)) /\ l <= Len(TraceLog) /\ TraceLog[l].w = w)
 TraceSpec == Init /\ l = 1 /\ TLCSet(2, 1) /\ [][TraceNext]_vars
 TraceAccepted == /\ PrintT(<<"TRACE-POSITION", TLCGet(2), Len(TraceLog)>>)
                  /\ TLCGet(2) = Len(TraceLog) + 1
@@ -330,7 +353,7 @@ TraceAccepted == /\ PrintT(<<"TRACE-POSITION", TLCGet(2), Len(TraceLog)>>)
 TrackProgress == TLCSet(2, IF l > TLCGet(2) THEN l ELSE TLCGet(2))
 
 \* ---- properties
-TypeOK == /\ \A w \in W : pc[w] \in {"new", "loop", "post", "prerunning", "preended", "running", "done"} /\ Len(path[w]) >= 1 /\ path[w][1] = Root
+TypeOK == /\ \A w \in W : pc[w] \in {"new", "loop", "post", "prerunning", "preended", "running", "lostwait", "prelostwait", "done"} /\ Len(path[w]) >= 1 /\ path[w][1] = Root
           /\ turn \in W \cup {None}
 NoC01 == \A b \in bad : b[1] # "C01"
 NoC03 == \A b \in bad : b[1] # "C03"
